@@ -51,11 +51,11 @@ type VecField struct {
 // Content is everything observable through the segment API.
 type Content struct {
 	Count    int
-	Fields   []string                      // sorted set
-	Postings map[string]map[string][]Hit   // field -> term -> hits (non-empty lists only)
-	Stored   [][]StoredVal                 // per doc, `_id` first
-	DV       map[string]map[uint64][]string // dv field -> doc -> sorted distinct terms (non-empty only)
-	DVFields []string                      // sorted set
+	Fields   []string                        // sorted set
+	Postings map[string]map[string][]Hit     // field -> term -> hits (non-empty lists only)
+	Stored   [][]StoredVal                   // per doc, `_id` first
+	DV       map[string]map[uint64][]string  // dv field -> doc -> sorted distinct terms (non-empty only)
+	DVFields []string                        // sorted set
 	Thes     map[string]map[string][]SynPair // thesaurus -> term -> sorted pairs
 	Vecs     map[string]*VecField
 }
@@ -403,10 +403,15 @@ func FromMerge(inputs []*Content, drops [][]bool) (*Content, [][]uint64) {
 
 // Sections selects which parts of the content are rendered.
 type Sections struct {
-	Meta, Postings, Stored, DV, Thes bool
+	Meta, Postings, Stored, DV, Thes, Vecs bool
+	// NoDVList omits the list of visitable doc-value fields from the DV section
+	// (for merged segments the properties bound it but do not pin it exactly).
+	NoDVList bool
 }
 
-var All = Sections{true, true, true, true, true}
+// All is everything a segment dump can observe; AllVecs adds the reference's vector table.
+var All = Sections{Meta: true, Postings: true, Stored: true, DV: true, Thes: true}
+var AllVecs = Sections{Meta: true, Postings: true, Stored: true, DV: true, Thes: true, Vecs: true}
 
 func (c *Content) Render(s Sections) string {
 	var b strings.Builder
@@ -456,7 +461,9 @@ func (c *Content) Render(s Sections) string {
 		}
 	}
 	if s.DV {
-		fmt.Fprintf(&b, "dvfields %q\n", c.DVFields)
+		if !s.NoDVList {
+			fmt.Fprintf(&b, "dvfields %q\n", c.DVFields)
+		}
 		var fs []string
 		for f := range c.DV {
 			fs = append(fs, f)
@@ -496,6 +503,22 @@ func (c *Content) Render(s Sections) string {
 				}
 				b.WriteString("\n")
 			}
+		}
+	}
+	if s.Vecs {
+		var ns []string
+		for n := range c.Vecs {
+			ns = append(ns, n)
+		}
+		sort.Strings(ns)
+		for _, n := range ns {
+			vf := c.Vecs[n]
+			var ls []string
+			for _, v := range vf.Vecs {
+				ls = append(ls, fmt.Sprintf("(d%d %v)", v.Doc, v.Vec))
+			}
+			sort.Strings(ls)
+			fmt.Fprintf(&b, "vec %q dims=%d metric=%s: %s\n", n, vf.Dims, vf.Metric, strings.Join(ls, " "))
 		}
 	}
 	return b.String()
